@@ -36,6 +36,8 @@ def violations_for(pid, prog, tier="quick"):
         mod.run(ctx)
     except facts.AnchorError as e:
         ctx.ob("anchor", "anchor", False, "fail closed: %s" % e, nontrivial=False)
+    except Exception as e:
+        ctx.ob("anchor", "rule could not be evaluated", False, "fail closed: %s: %s" % (type(e).__name__, e), nontrivial=False)
     known = {k["key"] for k in core.load_known() if k["property"] == pid and k["status"] == "known"}
     return [v for v in ctx.violations if v["key"] not in known]
 
